@@ -4,8 +4,22 @@
   handler threads, under every interleaving). Helper lemmas: `VarlinkProofs/Lemmas/Lifecycle*.lean`.
 -/
 import VarlinkProofs.Lemmas.LifecycleMono
+import Varlink.Expected
+import Varlink.Extracted.Skeleton
 namespace Varlink.C14
 open Varlink.Life
+
+/-! ### the model is written against the code that exists -/
+
+/-- **skeleton_matches**: the synchronisation skeleton regenerated from /repo's service.go on every run
+    (lock/unlock, field reads and writes with the constants written, listener and wait-group calls, go, defer,
+    guards, returns — in source order) is the one the transition system was written against. -/
+theorem skeleton_matches : Varlink.Extracted.skeleton = Varlink.Expected.skeleton := by decide
+
+/-- `Listen` and `DoListen` run the same accept loop (the model has one set of loop transitions for both) -/
+theorem listen_and_dolisten_share_the_loop :
+    Varlink.Expected.loopOf (Varlink.Expected.ops "Listen") = Varlink.Expected.loopOf (Varlink.Expected.ops "DoListen") ∧
+    (Varlink.Expected.loopOf (Varlink.Expected.ops "Listen")).length = 30 := by decide
 
 /-! ### accounting -/
 
@@ -27,27 +41,193 @@ theorem accounted_phases :
     (∀ p, inWg p = true ↔ p = .reading ∨ p = .dispatching ∨ p = .closing ∨ p = .closed ∨ p = .decremented) := by
   constructor <;> intro p <;> cases p <;> simp [inCounter, inWg]
 
-/-- the four endings of a handler (orderly close, abort mid-frame, handler error, context cancellation)
-    all lead to the same exit path … -/
-theorem four_endings_reach_closing {w w1 : World} {i : Nat} (e : List Label)
-    (he : e = [.clientClose i, .handler i] ∨ e = [.clientAbort i, .handler i] ∨ e = [.handlerFails i] ∨ e = [.ctxEnd i])
-    {x : Conn} (hi : w.conns[i]? = some x) (hp : x.phase = .reading ∧ x.reqs = 0 ∨ x.phase = .dispatching)
-    (hrun : run w e = some w1) : (w1.conns[i]?).map (·.phase) = some .closing := by
-  have hlt := lt_of_getElem? hi
-  rcases he with rfl | rfl | rfl | rfl
-  · rcases hp with ⟨hp, hr⟩ | hp <;>
-      simp [run, step, stepClientEnd, stepHandler, hi, hp, hlt] at hrun
-    all_goals (try split at hrun) <;> simp_all
-    all_goals (subst hrun; simp [hlt])
-  · rcases hp with ⟨hp, hr⟩ | hp <;>
-      simp [run, step, stepClientEnd, stepHandler, hi, hp, hlt] at hrun
-    all_goals (try split at hrun) <;> simp_all
-    all_goals (subst hrun; simp [hlt])
-  · rcases hp with ⟨hp, hr⟩ | hp <;>
-      simp [run, step, stepHandlerFails, hi, hp] at hrun
-    subst hrun; simp [hlt]
-  · rcases hp with ⟨hp, hr⟩ | hp <;>
-      simp [run, step, stepCtxEnd, hi, hp] at hrun
-    obtain ⟨_, rfl⟩ := hrun; simp [hlt]
+theorem setConn_get {w : World} {i : Nat} {x y : Conn} (hi : w.conns[i]? = some x) :
+    (w.setConn i y).conns[i]? = some y := getElem?_set_eq' hi
+
+theorem run_one {w w1 : World} {a : Label} (h1 : step w a = some w1) : run w [a] = some w1 := by
+  simp only [run, h1]
+theorem run_two {w w1 w2 : World} {a b : Label} (h1 : step w a = some w1) (h2 : step w1 b = some w2) :
+    run w [a, b] = some w2 := by simp only [run, h1, h2]
+theorem run_three {w w1 w2 w3 : World} {a b c : Label} (h1 : step w a = some w1) (h2 : step w1 b = some w2)
+    (h3 : step w2 c = some w3) : run w [a, b, c] = some w3 := by simp only [run, h1, h2, h3]
+
+/-- the four endings of a handler — orderly close, abort mid-frame (both: end of input while reading),
+    handler error, context cancellation — are all enabled in the states where they can happen and all lead
+    to the same exit path (`closing`) -/
+theorem four_endings_reach_closing {w : World} {i : Nat} {x : Conn} (hi : w.conns[i]? = some x) :
+    (x.phase = .reading → x.reqs = 0 → x.cli = .open →
+      ∃ w1, run w [.clientClose i, .handler i] = some w1 ∧ (w1.conns[i]?).map (·.phase) = some .closing) ∧
+    (x.phase = .reading → x.reqs = 0 → x.cli = .open →
+      ∃ w1, run w [.clientAbort i, .handler i] = some w1 ∧ (w1.conns[i]?).map (·.phase) = some .closing) ∧
+    (x.phase = .dispatching →
+      ∃ w1, run w [.handlerFails i] = some w1 ∧ (w1.conns[i]?).map (·.phase) = some .closing) ∧
+    (x.phase = .reading → ownerCtxDone w x = true →
+      ∃ w1, run w [.ctxEnd i] = some w1 ∧ (w1.conns[i]?).map (·.phase) = some .closing) := by
+  refine ⟨?_, ?_, ?_, ?_⟩
+  · intro hp hr hc
+    have h1 : step w (.clientClose i) = some (w.setConn i { x with cli := .closed }) := by
+      simp [step, stepClientEnd, hi, hc, hp]
+    have h2 : step (w.setConn i { x with cli := .closed }) (.handler i) =
+        some ((w.setConn i { x with cli := .closed }).setConn i { x with cli := .closed, phase := .closing }) := by
+      simp only [step, stepHandler]; rw [setConn_get hi]; simp [hp, hr]
+    exact ⟨_, run_two h1 h2, by rw [setConn_get (setConn_get hi)]; rfl⟩
+  · intro hp hr hc
+    have h1 : step w (.clientAbort i) = some (w.setConn i { x with cli := .aborted }) := by
+      simp [step, stepClientEnd, hi, hc, hp]
+    have h2 : step (w.setConn i { x with cli := .aborted }) (.handler i) =
+        some ((w.setConn i { x with cli := .aborted }).setConn i { x with cli := .aborted, phase := .closing }) := by
+      simp only [step, stepHandler]; rw [setConn_get hi]; simp [hp, hr]
+    exact ⟨_, run_two h1 h2, by rw [setConn_get (setConn_get hi)]; rfl⟩
+  · intro hp
+    have h1 : step w (.handlerFails i) = some (w.setConn i { x with phase := .closing }) := by
+      simp [step, stepHandlerFails, hi, hp]
+    exact ⟨_, run_one h1, by rw [setConn_get hi]; rfl⟩
+  · intro hp hc
+    have h1 : step w (.ctxEnd i) = some (w.setConn i { x with phase := .closing }) := by
+      simp [step, stepCtxEnd, hi, hp, hc]
+    exact ⟨_, run_one h1, by rw [setConn_get hi]; rfl⟩
+
+/-- … on which the connection leaves the counter and its owner's wait group exactly once: from `closing`
+    the handler's next three steps are always enabled and end in `done` with `conncounter` one lower and
+    the owner's wait group one lower -/
+theorem exit_path_decrements_once {w : World} (h : Reachable w) {i : Nat} {x : Conn} (hi : w.conns[i]? = some x)
+    (hp : x.phase = .closing) :
+    ∃ w3 co co3, run w [.handler i, .handler i, .handler i] = some w3 ∧
+      (w3.conns[i]?).map (·.phase) = some .done ∧ w3.counter = w.counter - 1 ∧
+      w.calls[x.owner]? = some co ∧ w3.calls[x.owner]? = some co3 ∧ co3.wg + 1 = co.wg := by
+  have hinv := inv_reachable h
+  let x1 : Conn := { x with phase := .closed }
+  let x2 : Conn := { x with phase := .decremented }
+  let w1 : World := w.setConn i x1
+  let w2 : World := ({ w1 with counter := w.counter - 1 } : World).setConn i x2
+  have g1 : w1.conns[i]? = some x1 := setConn_get hi
+  have g2 : w2.conns[i]? = some x2 := setConn_get (w := { w1 with counter := w.counter - 1 }) g1
+  have h1 : step w (.handler i) = some w1 := by
+    simp only [step, stepHandler, hi, hp]; rfl
+  have h2 : step w1 (.handler i) = some w2 := by
+    simp only [step, stepHandler, g1]; rfl
+  have hinv2 : Life.Inv w2 := inv_step (inv_step hinv h1) h2
+  obtain ⟨co, hco, hne⟩ := hinv2.owner_wg_pos g2 (by simp [x2, inWg])
+  have hco' : w.calls[x.owner]? = some co := hco
+  have h3 : step w2 (.handler i) = some ((w2.setCall x.owner { co with wg := co.wg - 1 }).setConn i { x2 with phase := .done }) := by
+    simp only [step, stepHandler, g2]
+    have : w2.calls[x2.owner]? = some co := hco
+    simp only [x2] at this ⊢
+    simp only [this, hne, if_false]
+  refine ⟨_, co, { co with wg := co.wg - 1 }, run_three h1 h2 h3, ?_, rfl, hco', ?_, ?_⟩
+  · rw [setConn_get (w := w2.setCall x.owner { co with wg := co.wg - 1 }) g2]; rfl
+  · exact getElem?_set_eq' hco'
+  · simp only []; omega
+
+/-! ### draining -/
+
+/-- a connection has been handed out by Accept (it is past the backlog and was not refused or reset) -/
+def wasAccepted (p : Phase) : Bool :=
+  match p with
+  | .backlog | .refused | .dropped => false
+  | _ => true
+
+/-- **drains**: when a serving call has returned, every connection it ever accepted is completely finished
+    (handler returned, counter and wait group released) -/
+theorem drains {w : World} (h : Reachable w) {k : Nat} {c : Call} (hk : w.calls[k]? = some c)
+    (hr : c.pc = .returned) {i : Nat} {x : Conn} (hi : w.conns[i]? = some x) (ho : x.owner = k)
+    (ha : wasAccepted x.phase = true) : x.phase = .done := by
+  have hinv := inv_reachable h
+  have hwg : c.wg = 0 := hinv.wgZero k c hk (by simp [hr, Pc.quiet])
+  have hcnt : cnt (ownedWg k) w.conns = 0 := by rw [← hinv.wgOk k c hk, hwg]; rfl
+  have hnot := cnt_zero_forall _ hcnt hi
+  obtain ⟨l1, l2⟩ := hinv.linkRev i x hi
+  have hw : inWg x.phase = false := by simpa [ownedWg, ho] using hnot
+  cases hp : x.phase <;> simp only [hp, wasAccepted, inWg] at ha l1 l2 hw ⊢
+  all_goals first
+    | (exfalso; exact Bool.noConfusion ha)
+    | (exfalso; exact Bool.noConfusion hw)
+    | skip
+  · obtain ⟨c', hc', hpc', _⟩ := l1 trivial
+    rw [ho, hk] at hc'; simp only [Option.some.injEq] at hc'; subst hc'; rw [hr] at hpc'; cases hpc'
+  · obtain ⟨c', hc', hpc', _⟩ := l2 trivial
+    rw [ho, hk] at hc'; simp only [Option.some.injEq] at hc'; subst hc'; rw [hr] at hpc'; cases hpc'
+
+/-! ### a second bind during serving -/
+
+/-- **bind_refused_while_running**: while the service is running, the running check of `Bind` (alone or inside
+    `Listen`) makes the call return "already running" at once, and nothing else changes: the running flag,
+    the listener field and every listener, the counter, the address fields, all connections and all other
+    calls are exactly as before — in particular no teardown of the running service happens. -/
+theorem bind_refused_while_running {w : World} {k : Nat} {c : Call} (hk : w.calls[k]? = some c)
+    (hpc : c.pc = .bindCheck) (hrun : w.running = true) :
+    step w (.call k) = some { w with calls := w.calls.set k { c with pc := .returned, ret := some .errRunning } } := by
+  simp [step, stepCall, hk, hpc, hrun, World.setCall]
+
+/-- regression witness for the repaired defect (fix 93d57c1): with the OLD behaviour — the refused `Listen` ran
+    the deferred teardown — the history  serve; second Listen (refused); Shutdown; client connects  leaves the
+    first call blocked in Accept on a listener that Shutdown no longer finds, and the late client is accepted. -/
+def oldDefectTrace : Option World :=
+  (run init [.spawn .bind false (some 0), .call 0, .call 0, .call 0, .call 0,      -- Bind
+             .spawn .doListen false none, .call 1, .call 1, .call 1,               -- DoListen … blocked in Accept
+             .spawn .listen false (some 1)]).bind fun w =>                          -- second Listen
+  (refusedListenOld w 2).bind fun w =>                                              -- OLD: refused + teardown
+  run w [.shutdown, .clientConnect 0, .call 1]                                      -- Shutdown; late client; Accept
+
+structure Obs where
+  running : Bool
+  lst : Option Nat
+  open0 : Bool
+  calls : List (Pc × Option Ret)
+  conns : List Phase
+  deriving DecidableEq
+
+def obs (w : World) : Obs :=
+  ⟨w.running, w.lst, isOpen w 0, w.calls.map (fun c => (c.pc, c.ret)), w.conns.map (·.phase)⟩
+
+example : oldDefectTrace.map obs =
+    some ⟨false, none, true,
+          [(.returned, some .nil), (.gotConn, none), (.waiting, some .errRunning)], [.accepted]⟩ := by decide
+
+/-- the same history on the code as it is now: the late client is refused and the serving call ends with nil -/
+example : (run init [.spawn .bind false (some 0), .call 0, .call 0, .call 0, .call 0,
+             .spawn .doListen false none, .call 1, .call 1, .call 1,
+             .spawn .listen false (some 1), .call 2,
+             .shutdown, .clientConnect 0, .call 1, .call 1, .call 1, .call 1]).map obs =
+    some ⟨false, none, false,
+          [(.returned, some .nil), (.returned, some .nil), (.returned, some .errRunning)], [.refused]⟩ := by decide
+
+/-! ### nothing is served after Shutdown -/
+
+/-- **no_service_after_shutdown**: once `Shutdown` has run on a bound service (listener field `l`), the listener
+    is closed for good, and every connection made to it afterwards — under any continuation whatsoever — is
+    refused and stays refused: it is never returned by Accept, never counted, never served. -/
+theorem no_service_after_shutdown {w w2 : World} (hr : Reachable w) {l : Nat} (hl : w.lst = some l)
+    (h2 : Reach Always (stepShutdown w) w2) :
+    Closed w2 l ∧
+    ∀ (i : Nat) (x : Conn), w.conns.length ≤ i → w2.conns[i]? = some x → x.lsn = l → x.phase = .refused := by
+  have hv := valid_reachable hr
+  have hsd : step w .shutdown = some (stepShutdown w) := rfl
+  have hinv1 : Life.Inv (stepShutdown w) := inv_step (inv_reachable hr) hsd
+  have hcl1 : Closed (stepShutdown w) l := by
+    have hlt := hv.lst l hl
+    refine closed_of_isOpen_false (by simpa using hlt) ?_
+    simp only [stepShutdown, hl, isOpen, closeL]
+    rw [List.getElem?_modify]
+    simp [hlt]
+  refine Reach.induct
+    (fun w2 => Life.Inv w2 ∧ Closed w2 l ∧
+      ∀ (i : Nat) (x : Conn), w.conns.length ≤ i → w2.conns[i]? = some x → x.lsn = l → x.phase = .refused)
+    ⟨hinv1, hcl1, ?_⟩ ?_ h2 |>.2
+  · intro i x hi hx _
+    have := lt_of_getElem? hx
+    simp at this; omega
+  · intro wa a wb _ ⟨hinva, hcla, hall⟩ _ hs
+    refine ⟨inv_step hinva hs, closed_step hs hcla, ?_⟩
+    intro i x hi hx hxl
+    have hrel := rel_of_step hs
+    cases hold : wa.conns[i]? with
+    | some x0 =>
+      obtain ⟨x', hx', hlsn, hph⟩ := conn_mono hrel hinva hold
+      rw [hx] at hx'; simp only [Option.some.injEq] at hx'; subst hx'
+      exact hph (hall i x0 hi hold (by rw [← hlsn]; exact hxl))
+    | none =>
+      obtain ⟨_, hph⟩ := conn_new hrel hold hx
+      rw [hph, hxl, isOpen_false_of_closed hcla]; rfl
 
 end Varlink.C14
